@@ -70,6 +70,9 @@ pub mod h_input2 {
 pub mod h_pratt2 {
     include!(concat!(env!("CHUMSKY_VERIF_DIR"), "/h_pratt2.rs"));
 }
+pub mod h_extra {
+    include!(concat!(env!("CHUMSKY_VERIF_DIR"), "/h_extra.rs"));
+}
 #[cfg(feature = "memoization")]
 pub mod h_memo {
     include!(concat!(env!("CHUMSKY_VERIF_DIR"), "/h_memo.rs"));
@@ -103,6 +106,7 @@ pub fn register_all(r: &mut Vec<(&'static str, fn())>) {
     h_iter_t::register(r);
     h_arity::register(r);
     h_comp::register(r);
+    h_extra::register(r);
     #[cfg(feature = "memoization")]
     h_memo::register(r);
     #[cfg(feature = "memoization")]
